@@ -353,7 +353,7 @@ func (c *Ctx) c10Dates(n int) {
 		case 2:
 			serial = float64(36526+c.Rng.Intn(20000)) + c.Rng.Float64()
 		case 3:
-			serial = float64(61+c.Rng.Intn(60000)) + []float64{0, 0.5, 0.25, 0.75, 0.99999, 0.041666667, 0.4999999}[c.Rng.Intn(7)]
+			serial = float64(61+c.Rng.Intn(60000)) + []float64{0, 0.5, 0.25, 0.75, 0.99999, 0.041666667, 0.4999999, 0.52, 0.54, 0.02, 0.001, 0.5006944444444444, 0.4993055555555556}[c.Rng.Intn(13)]
 		default:
 			serial = float64([]int{61, 366, 367, 59 + 2, 36525, 36526, 73050, 73051, 2958465, 43831, 44256, 45351}[c.Rng.Intn(12)])
 		}
@@ -384,6 +384,11 @@ func (c *Ctx) c10Dates(n int) {
 			{{"mmm", months[mo-1][:3]}, {"-", "-"}, {"yy", fmt.Sprintf("%02d", y%100)}},
 			{{"hh", fmt.Sprintf("%02d", hh)}, {":", ":"}, {"mm", fmt.Sprintf("%02d", mi)}, {":", ":"}, {"ss", fmt.Sprintf("%02d", ss)}},
 			{{"mm", fmt.Sprintf("%02d", mi)}, {":", ":"}, {"ss", fmt.Sprintf("%02d", ss)}},
+			// the designator before the hour, and the one-letter form
+			{{"AM/PM", ap}, {" ", " "}, {"h", strconv.Itoa(h12)}, {":", ":"}, {"mm", fmt.Sprintf("%02d", mi)}},
+			{{"AM/PM", ap}, {" ", " "}, {"hh", fmt.Sprintf("%02d", h12)}, {":", ":"}, {"mm", fmt.Sprintf("%02d", mi)}, {":", ":"}, {"ss", fmt.Sprintf("%02d", ss)}},
+			{{"h", strconv.Itoa(h12)}, {":", ":"}, {"mm", fmt.Sprintf("%02d", mi)}, {" ", " "}, {"A/P", ap[:1]}},
+			{{"A/P", ap[:1]}, {" ", " "}, {"h", strconv.Itoa(h12)}},
 		}
 		lay := layouts[c.Rng.Intn(len(layouts))]
 		var code, want string
